@@ -122,6 +122,8 @@ func (e *Engine) globalCell(g *ssa.Global) *Value {
 	e.globals[g] = p
 	if init := e.externalGlobal(g); init != nil {
 		*p = init
+	} else if !initAllowed(g.Pkg.Pkg.Path()) {
+		e.abort(abortEngine, "read of a dependency global whose initialiser is not run: "+g.Pkg.Pkg.Path()+"."+g.Name())
 	}
 	return p
 }
@@ -181,6 +183,14 @@ func (e *Engine) callSSA(fn *ssa.Function, args []Value, env []Value, site ssa.C
 	if !e.Stats.FnSeen[key] {
 		e.Stats.FnSeen[key] = true
 	}
+	if e.summarise != nil && e.summarised(key) {
+		return e.callMerged(fn, args, env, site)
+	}
+	return e.callRaw(fn, args, env, site)
+}
+
+// callRaw pushes a frame and interprets fn.
+func (e *Engine) callRaw(fn *ssa.Function, args []Value, env []Value, site ssa.CallInstruction) Value {
 	fi := e.info(fn)
 	fr := &frame{fn: fn, info: fi, regs: make([]Value, fi.nregs), env: env}
 	for i := range fn.Params {
@@ -812,3 +822,18 @@ func (e *Engine) typeAssert(in *ssa.TypeAssert, x iface) Value {
 }
 
 func (e *Engine) hostImplements(x iface, it *types.Interface) bool { return false }
+
+// summarised reports whether calls of key are to be merged (exact name or "prefix*").
+func (e *Engine) summarised(key string) bool {
+	if v, ok := e.summarise[key]; ok {
+		return v
+	}
+	hit := false
+	for k := range e.summarise {
+		if n := len(k); n > 0 && k[n-1] == '*' && len(key) >= n-1 && key[:n-1] == k[:n-1] {
+			hit = true
+		}
+	}
+	e.summarise[key] = hit
+	return hit
+}
